@@ -124,6 +124,7 @@ type analyser struct {
 	calls   []string
 	gate    []string
 	touches map[string]bool
+	reslices []string // fields bound to a local by v := obj.f[:hi] (length re-established from this call's dimensions)
 	hitBody bool // treat `if cond-on-obj { …; return }` as the reuse gate
 }
 
@@ -308,6 +309,13 @@ func (a *analyser) stmt(s ast.Stmt, rangeOver, rangeKey string) *wset {
 							a.aliases[id.Name] = f
 						}
 					}
+				}
+			}
+		}
+		for _, r := range x.Rhs {
+			if se, ok := r.(*ast.SliceExpr); ok && se.High != nil {
+				if f, d, _, ok := a.rootField(se.X); ok && d == 1 {
+					a.reslices = append(a.reslices, f)
 				}
 			}
 		}
@@ -1096,6 +1104,7 @@ func genFields() (string, string) {
 					}
 				}
 				fmt.Fprintf(&b, "Definition %s_touches : list string :=\n  %s.\n", base, wrap(coqStrList(t)))
+				fmt.Fprintf(&b, "Definition %s_reslices : list string :=\n  %s.\n", base, wrap(coqStrList(a.reslices)))
 			}
 		}
 		b.WriteString("\n")
